@@ -435,7 +435,7 @@ def coveredLoops : List Covered := [
   { id := "yabgp/message/attribute/nlri/linkstate.py:BGPLS.parse_iso_node_id:0",
     hash := 0x4c4f27c26bb80bc2, adv := 0, cover := .finite "range" },
   { id := "yabgp/message/attribute/nlri/linkstate.py:BGPLS.parse_nlri:0",
-    hash := 0x2cd137adf0d728c0, adv := 4, cover := .tlv "bgpls.descriptors" },
+    hash := 0xc3004b10a9d379b0, adv := 4, cover := .tlv "bgpls.descriptors" },
   { id := "yabgp/message/attribute/nlri/linkstate.py:BGPLS.parse_nlri:1",
     hash := 0xc2bb007d6f6834c2, adv := 2, cover := .tlv "bgpls.mt_id" },
   { id := "yabgp/message/attribute/nlri/linkstate.py:BGPLS.parse_nlri:2",
